@@ -20,7 +20,6 @@
 From Coq Require Import String List Bool Arith Lia.
 From J2O Require Import Lowering.
 Import ListNotations.
-Open Scope string_scope.
 
 Definition ren := var -> var.
 Definition injective (rho : ren) : Prop := forall a b, rho a = rho b -> a = b.
@@ -94,11 +93,12 @@ Section Equivariance.
     unfold bind_returned. rewrite non_drop_ren, filter_needs_ren.
     destruct (filter (needs_binding c) (non_drop e)) as [|u us] eqn:Ef; simpl; auto.
     destruct r as [|l|]; simpl; auto.
+    change (rho u :: map rho us) with (map rho (u :: us)).
     rewrite !map_length.
     destruct (length l =? length (non_drop e)); simpl.
     - now rewrite bind_where_needed_ren.
-    - change (rho u :: map rho us) with (map rho (u :: us)).
-      destruct (length l =? S (length us)); simpl; auto. now rewrite bind_all_ren.
+    - destruct (length l =? S (length us)); simpl; auto.
+      destruct l as [|n nr]; auto. rewrite <- bind_ren. now rewrite bind_all_ren.
   Qed.
 
   Lemma outputs_ok_ren c vs : outputs_ok (ren_ctx rho c) (map rho vs) = outputs_ok c vs.
@@ -190,7 +190,7 @@ Corollary alpha_inline_same_outputs rho reg bi body bo c e c' r :
   exists c'', jit_lower rho reg bi body bo c e = Ok (c'', r) /\ c_conn c'' = c_conn c' /\
               forall o, rho o = o -> bound c'' o = bound c' o.
 Proof.
-  intros Hinj Heq Hc He H. rewrite (alpha_inline_ok _ _ _ _ _ Hinj Heq Hc He), H. simpl.
+  intros Hinj Heq Hc He H. rewrite (alpha_inline_ok rho reg bi body bo c e Hinj Heq Hc He), H. simpl.
   eexists. split; [reflexivity|]. split; [reflexivity|].
   intros o Ho. rewrite <- Ho at 1. now apply bound_ren.
 Qed.
@@ -198,7 +198,7 @@ Qed.
 Corollary alpha_inline_same_errors rho reg bi body bo c e x :
   injective rho -> reg_equivariant rho reg -> ren_ctx rho c = c -> ren_eqn rho e = e ->
   inline_plugin reg bi body bo c e = Err x -> jit_lower rho reg bi body bo c e = Err x.
-Proof. intros Hinj Heq Hc He H. now rewrite (alpha_inline_ok _ _ _ _ _ Hinj Heq Hc He), H. Qed.
+Proof. intros Hinj Heq Hc He H. now rewrite (alpha_inline_ok rho reg bi body bo c e Hinj Heq Hc He), H. Qed.
 
 (* when does a renaming fix a context / an equation *)
 Lemma ren_ctx_fixed rho c : (forall v n, In (v, n) (c_bind c) -> rho v = v) -> ren_ctx rho c = c.
@@ -266,8 +266,10 @@ Proof.
   destruct (filter (needs_binding c) (non_drop e)) as [|u us] eqn:Ef; [now injection H as <-|].
   destruct r as [|l|]; [now injection H as <- | | discriminate].
   destruct (length l =? length (non_drop e)); [injection H as <-; now apply bind_where_needed_frame|].
-  destruct (length l =? length (u :: us)); [|discriminate]. injection H as <-.
-  apply bind_all_frame. rewrite <- Ef. intro Hin. apply filter_In in Hin. tauto.
+  assert (Hnot : ~ In w (u :: us)) by (rewrite <- Ef; intro Hin; apply filter_In in Hin; tauto).
+  revert H Hnot. generalize (u :: us) as un. intros un H Hnot.
+  destruct (length l =? length un); [|discriminate]. injection H as <-.
+  now apply bind_all_frame.
 Qed.
 
 Section Frame.
@@ -284,7 +286,7 @@ Section Frame.
     destruct (p c e) as [[c1 r]|x] eqn:Ep; [|discriminate].
     destruct (bind_returned c1 e r) as [c2|x] eqn:Eb; [|discriminate].
     destruct (outputs_ok c2 (non_drop e)) as [[]|x]; [|discriminate]. injection H as <-.
-    rewrite (bind_returned_frame _ _ _ _ Eb (Hd w Hw)). eapply Hreg; eauto.
+    rewrite (bind_returned_frame _ _ _ _ w Eb (Hd w Hw)). eapply Hreg; eauto.
   Qed.
 
   Lemma lower_jaxpr_frame : forall jp c c', lower_jaxpr reg c jp = Ok c' ->
@@ -324,7 +326,7 @@ Section Frame.
       [|discriminate].
     injection H as <- _.
     rewrite fold_bind_out_frame by (now apply Hout).
-    rewrite (lower_jaxpr_frame _ _ E2 Hbody w Hw).
+    rewrite (lower_jaxpr_frame _ _ _ E2 Hbody w Hw).
     apply fold_bind_in_frame. now apply Hbi.
   Qed.
 End Frame.
@@ -334,7 +336,7 @@ Definition body_vars (bi : list var) (body : jaxpr) : list var := bi ++ flat_map
 (* two inlinings of the SAME body with fresh maps of disjoint range: whatever the first one bound (all of it
    lives in the range of rho1, plus the first equation's outvars) is still bound to the same values after the
    second one *)
-Theorem two_inlinings_no_clash rho1 rho2 reg bi body bo c1 e2 c2 r2 :
+Theorem two_inlinings_no_clash (rho1 rho2 : ren) reg bi body bo c1 e2 c2 r2 :
   (forall v w, rho1 v <> rho2 w) ->
   reg_protects (fun w => exists v, w = rho1 v) reg ->
   (forall v, ~ In (Some (rho1 v)) (e_outs e2)) ->
@@ -356,11 +358,11 @@ Qed.
    outvar "needs binding") *)
 Definition emit_plugin : plugin := fun c e =>
   let n := length (c_conn c) in Ok (mkCtx (c_bind c) (n :: c_conn c), RVals [n]).
-Definition ex_reg : registry := fun s => if String.eqb s "f" then Some emit_plugin else None.
-Definition ex_body : jaxpr := [mkEqn "f" [IVar 0] [Some 1]].
+Definition ex_reg : registry := fun s => if String.eqb s "f"%string then Some emit_plugin else None.
+Definition ex_body : jaxpr := [mkEqn "f"%string [IVar 0] [Some 1]].
 Definition ex_c0 : ctx := mkCtx [(12, 1); (10, 0)] [1; 0].
-Definition ex_e1 : eqn := mkEqn "jit" [IVar 10] [Some 11].
-Definition ex_e2 : eqn := mkEqn "jit" [IVar 12] [Some 13].
+Definition ex_e1 : eqn := mkEqn "jit"%string [IVar 10] [Some 11].
+Definition ex_e2 : eqn := mkEqn "jit"%string [IVar 12] [Some 13].
 
 (* un-freshened: the second call's outvar 13 is bound to the FIRST call's node (value 2), although the second
    call emitted its own node 3 *)
@@ -390,11 +392,11 @@ Example emit_plugin_equivariant rho : plugin_equivariant rho emit_plugin.
 Proof. intros c e. reflexivity. Qed.
 Example ex_reg_equivariant rho : reg_equivariant rho ex_reg.
 Proof.
-  intros s p H. unfold ex_reg in H. destruct (String.eqb s "f"); [|discriminate].
+  intros s p H. unfold ex_reg in H. destruct (String.eqb s "f"%string); [|discriminate].
   injection H as <-. apply emit_plugin_equivariant.
 Qed.
 Example ex_reg_protects W : reg_protects W ex_reg.
 Proof.
-  intros s p c e c' r H Hp _ w _. unfold ex_reg in H. destruct (String.eqb s "f"); [|discriminate].
+  intros s p c e c' r H Hp _ w _. unfold ex_reg in H. destruct (String.eqb s "f"%string); [|discriminate].
   injection H as <-. unfold emit_plugin in Hp. injection Hp as <- _. reflexivity.
 Qed.
